@@ -243,17 +243,31 @@ def _helper_case(kind):
         holder[0] = st
         if kind == "newton":
             cx.target(core._solver_helper, model, NewtonSolver, {})
+        elif kind == "fsolve":
+            import scipy.optimize
+            cx.target(core._solver_helper, model, scipy.optimize.fsolve, {"full_output": True})
+        elif kind == "krylov":
+            import scipy.optimize
+            cx.target(core._solver_helper, model, scipy.optimize.newton_krylov, {})
         else:
             cx.target(core._solver_helper, model, "not a solver", {})
             cx.allow_raise(ValueError, True)
 
         def post(out):
-            if kind != "newton":
+            if kind == "unknown":
                 return [("unknown_solver_is_refused", out.kind == "raise")]
             if not out.returned:
                 return []
             status, msg, it = out.value
-            return [("status_passed_through_unchanged", status is model.last_status), ("structure_set_before_solving", model.structure_set)]
+            if kind in ("fsolve", "krylov"):
+                # scipy solvers: converged exactly when scipy says so, and then the model holds scipy's solution; no iteration count is reported
+                said_ok = model.scipy_ok
+                return [("structure_set_before_solving", model.structure_set),
+                        ("converged_exactly_when_scipy_reports_success", (status is SolverStatus.converged) == bool(said_ok) and status in (SolverStatus.converged, SolverStatus.error)),
+                        ("on_success_the_model_holds_scipy_s_solution", (model.loaded is model.scipy_x) if said_ok else True),
+                        ("no_iteration_count_for_scipy_solvers", it is None)]
+            return [("status_passed_through_unchanged", status is model.last_status), ("structure_set_before_solving", model.structure_set),
+                    ("iteration_count_passed_through", it == 3)]
         cx.ensure(post)
     return Case(kind, build, crosscheck=False)
 
@@ -270,6 +284,31 @@ def _helper_models2():
         args[1].last_status = s
         return (s, "msg", 3)
     m.register(NewtonSolver.solve, solve, verified_by=QS)
+    import scipy.optimize
+
+    def fsolve(interp, args, kw):
+        p = interp.path
+        model = args[0].__self__
+        _n[0] += 1
+        x = z3.Const("scipy_x!%d" % _n[0], V)
+        ok = p.branch(p.fresh("scipy_reports_success", "bool").t)
+        model.scipy_ok, model.scipy_x = ok, x
+        ier = 1 if ok else (2 + (1 if p.branch(p.fresh("other_failure_code", "bool").t) else 0))
+        return (Vec(x), {}, ier, "mesg")
+    m.register(scipy.optimize.fsolve, fsolve, trusted="scipy.optimize.fsolve(full_output=True) returns (x, info, ier, mesg) with ier == 1 exactly on success")
+
+    def krylov(interp, args, kw):
+        p = interp.path
+        model = args[0].__self__
+        _n[0] += 1
+        x = z3.Const("scipy_x!%d" % _n[0], V)
+        ok = p.branch(p.fresh("scipy_reports_success", "bool").t)
+        model.scipy_ok, model.scipy_x = ok, x
+        if not ok:
+            from scipy.optimize._nonlin import NoConvergence
+            raise library.PyRaise(NoConvergence("no convergence"))
+        return Vec(x)
+    m.register(scipy.optimize.newton_krylov, krylov, trusted="scipy.optimize.newton_krylov returns the solution or raises NoConvergence")
     return m
 
 
@@ -280,6 +319,6 @@ CONTRACTS = [
                       "numpy: np.max(abs(r)) is the infinity norm; x + alpha*d is a vector",
                       "scipy.sparse.linalg.spsolve returns some vector or raises MatrixRankWarning"],
              note="requires maxiter >= 1 and bt_maxiter >= 1 (with 0 the final return / the line-search check read an unbound loop variable)"),
-    Contract("wntr.sim.core:_solver_helper", ["C16"], [_helper_case("newton"), _helper_case("unknown")], models=_helper_models2,
+    Contract("wntr.sim.core:_solver_helper", ["C16"], [_helper_case("newton"), _helper_case("fsolve"), _helper_case("krylov"), _helper_case("unknown")], models=_helper_models2,
              interpret_always=(NewtonSolver,)),
 ]
